@@ -21,7 +21,11 @@ K5 addresses == prefix || hash160 || checksum by reference; corrupted ones and f
 K6 account from a mnemonic: receiving/change addresses ordered by n equal the reference
    derivation (seed = PBKDF2-HMAC-SHA512(mnemonic, 'lbryum', 2048)) for the configured gaps,
    identical on a second fresh database, still a hole-free reference prefix after an address
-   was used; private key handed out for (chain, n) controls that address.
+   was used; private key handed out for (chain, n) controls that address.  The same holds for every
+   account when several accounts (other mnemonics, other gaps, single-address, watch-only) share ONE
+   ledger database: each chain stays the reference prefix of its own account after every generation /
+   payment / top-up of any account, and the ledger's key lookup by address finds the controlling key.
+   A passphrase in another Unicode-equivalent spelling (NFC/NFD/NFKC/NFKD) stretches to the same seed.
 K7 mnemonic_decode(mnemonic_encode(i)) == i for i in 1..2^264, dense around 2048^k.
 """
 import asyncio
@@ -39,7 +43,9 @@ RULE = ('paths: seeds of 16..64 bytes (length classes 16,17,31,32,33,48,63,64,ra
         'last, on main-net, test-net and regtest prefixes, plus BIP32 vectors 1-3; Base58Check: payloads 0..100 bytes with '
         '0/1/2/5/all leading zero bytes and substitutions/deletions/insertions/swaps/non-alphabet characters; addresses: '
         'random/zero/ff hash160 on three networks and their corruptions; accounts: random 12..13-word English mnemonics and '
-        'arbitrary strings x gaps {1,3,20}x{1,3,6,20}, default gaps and single-address; mnemonic: every i in dense '
+        'arbitrary strings x gaps {1,3,20}x{1,3,6,20}, default gaps and single-address; 2-3 such accounts (also watch-only) '
+        'in one ledger database x generation order x payments to any chain of any account; passphrases with accents / '
+        'compatibility characters in the four Unicode normal forms; mnemonic: every i in dense '
         'windows around 2048^k (k<=24) and random i up to 2^264.  distinct = distinct (seed, path prefix) node / payload / '
         'address / (mnemonic, gaps) / integer; non-trivial = every case (each is an independent input of a deterministic '
         'function); K1 counts one evaluation per derived node')
@@ -49,6 +55,9 @@ ASSUMPTIONS = [
     'hashlib (sha256, sha512, ripemd160, pbkdf2_hmac) and hmac from the standard library are trusted by both sides',
     'the account seed is PBKDF2-HMAC-SHA512(normalised mnemonic, salt "lbryum", 2048 rounds, 64 bytes) - the statement '
     'fixes no salt; only already-normalised mnemonics (lower-case ASCII, single blanks) are judged',
+    'unicodedata.normalize (standard library) is trusted to produce canonically / compatibility-equivalent spellings of '
+    'a passphrase; only their agreement with each other is judged (no normal form is prescribed); upper-case and '
+    'white-space variants of a passphrase are logged, not judged',
     'network constants written down from the LBRY chain parameters: main 0x55/0x7a xpub/xprv, test+regtest 111/196 tpub/tprv',
     'a child with parse256(IL) >= n or k_i = 0 (probability 2^-127) is skipped, never judged',
     'rejection = any exception or a False verdict; exception types other than Base58Error/ValueError are logged',
@@ -66,6 +75,8 @@ REQUIRED_HITS = [
     'K5.addr_checked', 'K5.invalid_checked', 'K5.foreign_prefix_checked',
     'K6.account_checked', 'K6.second_db_checked', 'K6.gap.1', 'K6.gap.3', 'K6.gap.20', 'K6.after_use_checked',
     'K6.private_key_checked', 'K6.seed_stretch_checked', 'K6.respelled_mnemonic_checked', 'K6.fixture_checked',
+    'K6.shared_ledger_checked', 'K6.shared.step_checked', 'K6.shared.after_use_checked', 'K6.shared.key_lookup_checked',
+    'K6.passphrase_equivalent_checked', 'K6.password_account_root_checked',
     'K7.roundtrip_checked', 'K7.boundary_checked',
 ]
 
@@ -151,6 +162,12 @@ def gen_cases(rng, tier, shard, nshards):
     fixed.append({'fam': 'acct', 'mseed': fr.getrandbits(48), 'gaps': None, 'kind': 'words', 'net': 'main', 'use': 7})
     fixed.append({'fam': 'acct', 'mseed': fr.getrandbits(48), 'gaps': None, 'kind': 'single', 'net': 'main', 'use': 0})
     fixed.append({'fam': 'acct', 'mseed': fr.getrandbits(48), 'gaps': [3, 3], 'kind': 'string', 'net': 'regtest', 'use': 2})
+    # several accounts in one ledger database: [kind, receiving gap, change gap] (gap None = documented defaults)
+    for accts in ([['words', 20, 6], ['words', 3, 3]],
+                  [['words', 1, 1], ['words', None, None], ['string', 3, 20]],
+                  [['words', None, None], ['single', None, None], ['words', 3, 1]],
+                  [['xpub', 3, 6], ['words', 3, 6]]):
+        fixed.append({'fam': 'shared', 'mseed': fr.getrandbits(48), 'accts': accts, 'net': 'main', 'uses': 2})
     fixed.append({'fam': 'b58fixed'})
     fixed.append({'fam': 'addrfixed'})
     fixed.append({'fam': 'mnem_fixed'})
@@ -167,7 +184,7 @@ def gen_cases(rng, tier, shard, nshards):
             yield c
     # seeded random part, interleaved so that every family gets budget
     rounds = 8 if quick else 160
-    for _ in range(rounds):
+    for rnd in range(rounds):
         for _ in range(3):
             depth = rng.choice([1, 2, 3, 4, 5, 6, 6])
             yield {'fam': 'path', 'seed': rand_seed(rng).hex(), 'path': [rand_index(rng) for _ in range(depth)],
@@ -180,6 +197,13 @@ def gen_cases(rng, tier, shard, nshards):
                'kind': rng.choice(['words', 'words', 'words', 'string', 'single']),
                'net': rng.choice(['main', 'main', 'regtest']), 'use': rng.randrange(rg)}
         yield {'fam': 'stretch', 'seed': rng.getrandbits(48), 'count': 6}
+        if rnd % 3 == 0:
+            gap = lambda: rng.choice([1, 1, 2, 3, 3, 6, 6, 20])  # noqa: E731
+            yield {'fam': 'shared', 'mseed': rng.getrandbits(48), 'net': rng.choice(['main', 'main', 'regtest']),
+                   'accts': [[rng.choice(['words', 'words', 'words', 'string', 'single', 'xpub'])] +
+                             rng.choice([[gap(), gap()]] * 5 + [[None, None]])
+                             for _ in range(rng.choice([2, 2, 2, 3]))],
+                   'uses': rng.randrange(1, 4)}
 
 
 # ------------------------------------------------------------------------------ helpers
@@ -921,6 +945,306 @@ def check_account(rec, case, mnemonic=None):
                 return
 
 
+# ------------------------------------------------------------------------------ K6: several accounts, one ledger database
+def shared_specs(lb, case):
+    """[{kind, mnemonic, generator, gaps}] of the accounts of one `shared` case (harness side only)."""
+    specs = []
+    for a, (kind, rg, cg) in enumerate(case['accts']):
+        mnemonic = make_mnemonic(lb, 'string' if kind == 'string' else 'words', case['mseed'] * 8 + a)
+        if kind == 'single':
+            generator, gaps = {'name': 'single-address'}, None
+        elif rg is None:
+            generator, gaps = {}, [20, 6]
+        else:
+            gaps = [rg, cg]
+            generator = {'name': 'deterministic-chain', 'receiving': {'gap': rg, 'maximum_uses_per_address': 1},
+                         'change': {'gap': cg, 'maximum_uses_per_address': 1}}
+        specs.append({'kind': kind, 'mnemonic': mnemonic, 'generator': generator, 'gaps': gaps})
+    return specs
+
+
+def shared_plan(case, specs):
+    """operations and, from the harness' own bookkeeping, the chain lengths / used indices they must leave behind:
+    an account's chain only changes through its own ensure_address_gap: up to `gap` unused addresses after the newest used one."""
+    r = random.Random(case['mseed'] ^ 0x5ed)
+    k = len(specs)
+    length = {(a, c): 0 for a in range(k) for c in (0, 1)}
+    used = {(a, c): set() for a in range(k) for c in (0, 1)}
+    ops = []
+
+    def ensure(a):
+        new = {}
+        for c in (0, 1):
+            if specs[a]['gaps'] is None:      # single address: the one root key, kept under chain 0
+                want = 1 if c == 0 else 0
+            else:
+                want = max(length[a, c], (max(used[a, c]) + 1 if used[a, c] else 0) + specs[a]['gaps'][c])
+            new[c] = list(range(length[a, c], want))
+            length[a, c] = want
+        ops.append({'op': 'ensure', 'a': a, 'new': [new[0], new[1]], 'length': {f'{x}/{c}': length[x, c] for x, c in length},
+                    'used': {f'{x}/{c}': sorted(used[x, c]) for x, c in used}})
+
+    order = list(range(k))
+    r.shuffle(order)
+    for pos, a in enumerate(order):
+        ensure(a)
+        if pos and r.random() < 0.5:
+            ensure(r.choice(order[:pos]))       # an earlier account tops up again after a later one generated
+    hd = [a for a in range(k) if specs[a]['gaps'] is not None]
+    for _ in range(case['uses'] if hd else 0):
+        a, c = r.choice(hd), r.choice([0, 0, 1])
+        n = length[a, c]
+        j = r.choice([0, n - 1, max(0, n - specs[a]['gaps'][c]), r.randrange(n), r.randrange(n)])
+        used[a, c].add(j)
+        ops.append({'op': 'use', 'a': a, 'c': c, 'j': j})
+        order = list(range(k))
+        r.shuffle(order)
+        for b in order:
+            ensure(b)
+    return ops
+
+
+async def shared_transcript(lb, net, specs, ops, xpubs):
+    """the operations on the REAL accounts of one Ledger+Database; after each the chains of EVERY account and the stored rows."""
+    w = lb.w
+    L = lb.ledger_class(net)
+    ledger = L({'db': w.Database(':memory:'), 'headers': w.Headers(':memory:')})
+    await ledger.db.open()
+    try:
+        wallet = w.Wallet()
+        accounts = []
+        for a, sp in enumerate(specs):
+            d = {'name': f'account {a}', 'address_generator': sp['generator']}
+            if sp['kind'] == 'xpub':
+                d['public_key'] = xpubs[a]
+            else:
+                d['seed'] = sp['mnemonic']
+            accounts.append(w.Account.from_dict(ledger, wallet, d))
+        t = {'ids': [x.id for x in accounts], 'xpubs': [x.public_key.extended_key_string() for x in accounts], 'steps': []}
+
+        async def view():
+            chains = []
+            for x in accounts:
+                both = []
+                for am in (x.receiving, x.change):
+                    recs = await am.get_address_records(order_by='n asc')
+                    both.append([[y['pubkey'].n, y['address'], bytes(y['pubkey'].pubkey_bytes).hex(), y['used_times'], y['chain']]
+                                 for y in recs])
+                chains.append(both)
+            rows = await ledger.db.select_addresses('account, chain, n, address')
+            return chains, sorted([y['account'], y['chain'], y['n'], y['address']] for y in rows)
+
+        for op in ops:
+            step = {'returned': None}
+            if op['op'] == 'ensure':
+                step['returned'] = list(await accounts[op['a']].ensure_address_gap())
+            else:
+                await ledger.db.set_address_history(op['address'], 'a' * 64 + ':1:')   # address by the reference
+            step['chains'], step['rows'] = await view()
+            t['steps'].append(step)
+        # the ledger's lookup by address (what signing uses): first / last address of every chain
+        t['lookups'] = []
+        last_chains = t['steps'][-1]['chains']
+        for a, x in enumerate(accounts):
+            for recs in last_chains[a][:1 if specs[a]['gaps'] is None else 2]:
+                for n, address, _, _, chain in (recs[:1] + recs[-1:]):
+                    pub = await ledger.get_public_key_for_address(wallet, address)
+                    owner = await ledger.get_account_for_address(wallet, address)
+                    priv = await ledger.get_private_key_for_address(wallet, address) if x.private_key is not None else None
+                    t['lookups'].append([a, chain, n, address, bytes(pub.pubkey_bytes).hex() if pub else None,
+                                         accounts.index(owner) if owner in accounts else None,
+                                         bytes(priv.private_key_bytes).hex() if priv else None, priv.address if priv else None])
+        return t
+    finally:
+        await ledger.db.close()
+
+
+def check_shared_ledger(rec, case):
+    lb = Lbry.get()
+    net = case['net']
+    _, vprv, vpub, _, _ = NETS[net]
+    specs = shared_specs(lb, case)
+    if len({sp['mnemonic'] for sp in specs}) != len(specs):
+        rec.log('K6.shared.duplicate_mnemonic_skipped')
+        return
+    ops = shared_plan(case, specs)
+    roots = [ref_account(sp['mnemonic']) for sp in specs]
+    ids = [ref_address(net, root.pub_bytes) for root in roots]
+    xpubs = [root.xpub(vprv, vpub) for root in roots]
+    rec.case('shared' + repr(([(sp['mnemonic'], sp['gaps'], sp['kind']) for sp in specs], net, case['uses'])),
+             sample={'accounts': [[sp['kind'], sp['mnemonic'], sp['gaps']] for sp in specs], 'net': net,
+                     'ops': [[o['op'], o['a']] + ([o['c'], o['j']] if o['op'] == 'use' else []) for o in ops]})
+    witness = {'accounts': [{k: sp[k] for k in ('kind', 'mnemonic', 'generator')} for sp in specs], 'net': net}
+    cache = {}
+
+    def ref_chain(a, c, count):
+        if specs[a]['gaps'] is None:
+            return [[0, ids[a], roots[a].pub_bytes.hex()]][:count]
+        parent, rows = cache.setdefault((a, c), (roots[a].neuter().ckd_pub(c), []))
+        for n in range(len(rows), count):
+            node = parent.ckd_pub(n)
+            rows.append([n, ref_address(net, node.pub_bytes), node.pub_bytes.hex()])
+        return rows[:count]
+
+    for op in ops:
+        if op['op'] == 'use':
+            op['address'] = ref_chain(op['a'], op['c'], op['j'] + 1)[op['j']][1]
+    try:
+        t = asyncio.run(shared_transcript(lb, net, specs, ops, xpubs))
+    except Exception as e:  # noqa
+        import traceback
+        rec.violation(f'C06/K6/shared-ledger/raises/{type(e).__name__}@accounts-in-one-ledger',
+                      f'{type(e).__name__}: {e} running {len(specs)} accounts in one ledger database',
+                      dict(witness, traceback=traceback.format_exc()[-1500:]))
+        return
+    rec.hit('K6.shared_ledger_checked')
+    rec.hit('K6.shared.accounts.%d' % len(specs))
+    if t['ids'] != ids or t['xpubs'] != xpubs:
+        rec.violation('C06/K6/shared-ledger/account-root', f'account ids/xpubs {t["ids"]} {t["xpubs"]} != reference {ids} {xpubs}',
+                      witness)
+        return
+    def describe(i):
+        op = ops[i]
+        return (f'step {i}: ensure_address_gap of account {op["a"]}' if op['op'] == 'ensure' else
+                f'step {i}: payment to m/{op["c"]}/{op["j"]} of account {op["a"]}')
+
+    length = {f'{a}/{c}': 0 for a in range(len(specs)) for c in (0, 1)}
+    usedix = {f'{a}/{c}': [] for a in range(len(specs)) for c in (0, 1)}
+    for i, (op, step) in enumerate(zip(ops, t['steps'])):
+        if op['op'] == 'ensure':
+            length, usedix = op['length'], op['used']
+        else:
+            usedix = dict(usedix)
+            usedix[f'{op["a"]}/{op["c"]}'] = sorted(set(usedix[f'{op["a"]}/{op["c"]}']) | {op['j']})
+            rec.hit('K6.shared.after_use_checked')
+        rec.hit('K6.shared.step_checked')
+        w2 = dict(witness, step=i, operation=describe(i), history=[describe(x) for x in range(i + 1)])
+        want_rows = []
+        for a in range(len(specs)):
+            whose = 'own' if a == op['a'] else 'other'
+            for cname, c in (('receiving', 0), ('change', 1)):
+                single = specs[a]['gaps'] is None
+                want = ref_chain(a, 0 if single else c, length[f'{a}/0'] if single else length[f'{a}/{c}'])
+                got = step['chains'][a][c]
+                if not (single and c == 1):
+                    want_rows += [[ids[a], c, x[0], x[1]] for x in want]
+                if [x[:3] for x in got] != want:
+                    what = 'count' if len(got) != len(want) else 'address'
+                    rec.violation(f'C06/K6/shared-ledger/{cname}-chain/{what}',
+                                  f'{describe(i)} ({whose} account): {cname} chain of account {a} ({specs[a]["mnemonic"]!r}, gaps '
+                                  f'{specs[a]["gaps"]}) has {len(got)} records n={[x[0] for x in got][:4]}.., its reference '
+                                  f'chain m/{c}/0..{len(want) - 1} has {len(want)}',
+                                  dict(w2, account=a, chain=c, lbry=[x[:3] for x in got], reference=want))
+                    return
+                want_used = usedix[f'{a}/{0 if single else c}']
+                if [x[0] for x in got if x[3] > 0] != want_used or any(x[4] != (0 if single else c) for x in got):
+                    rec.violation(f'C06/K6/shared-ledger/{cname}-chain/record-fields',
+                                  f'{describe(i)}: used_times/chain of account {a} {cname}: used n={[x[0] for x in got if x[3] > 0]}, '
+                                  f'paid to n={want_used}', dict(w2, account=a, chain=c, lbry=got))
+                    return
+        if step['rows'] != sorted(want_rows):
+            rec.violation('C06/K6/shared-ledger/stored-rows',
+                          f'{describe(i)}: the address table holds {len(step["rows"])} (account, chain, n, address) rows, the '
+                          f'reference chains of the {len(specs)} accounts make {len(want_rows)}',
+                          dict(w2, only_lbry=[x for x in step['rows'] if x not in want_rows][:10],
+                               only_reference=[x for x in want_rows if x not in step['rows']][:10]))
+            return
+        if op['op'] == 'ensure':
+            a = op['a']
+            single = specs[a]['gaps'] is None
+            want_ret = [ref_chain(a, c, length[f'{a}/{c}'])[n][1] for c in (0, 1) for n in op['new'][c]]
+            if sorted(step['returned']) != sorted(want_ret):
+                rec.violation('C06/K6/shared-ledger/returned-new-addresses',
+                              f'{describe(i)} returned {step["returned"]}, reference {want_ret}',
+                              dict(w2, lbry=step['returned'], reference=want_ret))
+                return
+    for a, chain, n, address, pub_hex, owner, priv_hex, kaddr in t['lookups']:
+        rec.hit('K6.shared.key_lookup_checked')
+        single = specs[a]['gaps'] is None
+        node = roots[a] if single else roots[a].ckd_priv(chain).ckd_priv(n)
+        w2 = dict(witness, account=a, chain=chain, n=n, address=address)
+        if pub_hex != node.pub_bytes.hex() or owner != a:
+            rec.violation('C06/K6/shared-ledger/public-key-for-address',
+                          f'ledger lookup of {address} (m/{chain}/{n} of account {a}): account {owner}, public key {pub_hex}; '
+                          f'reference {node.pub_bytes.hex()}', w2)
+            return
+        if specs[a]['kind'] == 'xpub':
+            continue
+        rec.hit('K6.shared.private_key_checked')
+        if priv_hex != node.priv_bytes.hex() or kaddr != address:
+            rec.violation('C06/K6/shared-ledger/private-key-for-address',
+                          f'get_private_key_for_address({address}) (m/{chain}/{n} of account {a}) = {priv_hex} ({kaddr}); '
+                          f'reference key {node.priv_bytes.hex()}', w2)
+            return
+
+
+# ------------------------------------------------------------------------------ K6: passphrase spellings
+# composed (NFC) spellings; every piece changes under at least one of NFD / NFKC / NFKD
+PW_PIECES = ['caf\u00e9', 'cr\u00e8me', 'na\u00efve', 'se\u00f1or', '\u00fcber', '\u00e5ngstr\u00f6m', 'vi\u1ec7t', '\u01d6ber',
+             '\ud55c\uae00', '\u304c\u304e', '\uff50\uff41\uff53\uff53\uff11\uff12\uff13', '\ufb01n', 'x\u00b2', '\uff76\uff9e\uff77',
+             'd\u00e9j\u00e0', 'pi\u00f1ata', '\u1e69un', 'z\u0142oty\u00b5']
+
+
+def check_passphrase_forms(rec, lb, r, mn):
+    """one passphrase, typed on systems that hand over another Unicode-equivalent form of the same text"""
+    import unicodedata
+    M = lb.mnemonic.Mnemonic
+    pw = ' '.join(r.sample(PW_PIECES, r.choice([1, 2, 2, 3])) + r.choice([[], [], ['horse'], ['42']]))
+    forms = {f: unicodedata.normalize(f, pw) for f in ('NFC', 'NFD', 'NFKC', 'NFKD')}
+    rec.case('pwforms' + mn + '|' + pw, sample={'mnemonic': mn, 'passphrase': pw,
+                                                'forms': {f: forms[f].encode('unicode_escape').decode() for f in forms}})
+    witness = {'mnemonic': mn, 'passphrase_nfc': forms['NFC'], 'code_points': {f: [hex(ord(c)) for c in forms[f]] for f in forms}}
+    try:
+        base = bytes(M.mnemonic_to_seed(mn, forms['NFC']))
+    except Exception as e:  # noqa
+        rec.violation(f'C06/K6/raises/{type(e).__name__}@mnemonic_to_seed/unicode-passphrase',
+                      f'{type(e).__name__}: {e} for passphrase {forms["NFC"]!r}', witness)
+        return
+    for f in ('NFD', r.choice(['NFKC', 'NFKD'])):
+        if forms[f] == forms['NFC']:
+            continue
+        try:
+            got = bytes(M.mnemonic_to_seed(mn, forms[f]))
+        except Exception as e:  # noqa
+            rec.violation(f'C06/K6/raises/{type(e).__name__}@mnemonic_to_seed/unicode-passphrase',
+                          f'{type(e).__name__}: {e} for passphrase {forms[f]!r}', dict(witness, form=f))
+            continue
+        rec.hit('K6.passphrase_equivalent_checked')
+        rec.hit('K6.passphrase_form.' + f)
+        if got != base:
+            rec.violation(f'C06/K6/same-passphrase-other-seed/{f.lower()}',
+                          f'mnemonic_to_seed({mn!r}, passphrase) differs between the NFC spelling {forms["NFC"]!r} and the {f} spelling '
+                          f'{forms[f].encode("unicode_escape").decode()!r} of the same passphrase: {base.hex()[:16]}.. != {got.hex()[:16]}..',
+                          dict(witness, form=f, seed_nfc=base.hex(), seed_other=got.hex()))
+            return
+    # the account key of a password protected seed (hence every address) equally does not depend on the form
+    f = r.choice([x for x in ('NFD', 'NFKC', 'NFKD') if forms[x] != forms['NFC']])
+    net = r.choice(['main', 'main', 'regtest'])
+    _, vprv, vpub, _, _ = NETS[net]
+    try:
+        want = R.master(base).xprv(vprv, vpub)
+        got = lb.w.Account.get_private_key_from_seed(lb.ledger_class(net), mn, forms[f]).extended_key_string()
+    except R.InvalidChild:
+        return
+    except Exception as e:  # noqa
+        rec.violation(f'C06/K6/raises/{type(e).__name__}@get_private_key_from_seed/unicode-passphrase',
+                      f'{type(e).__name__}: {e} for passphrase {forms[f]!r}', dict(witness, form=f))
+        return
+    rec.hit('K6.passphrase_account_root_checked')
+    if got != want:
+        rec.violation(f'C06/K6/same-passphrase-other-account-root/{f.lower()}',
+                      f'account key of {mn!r} with the {f} spelling of passphrase {forms["NFC"]!r} is {got}; the master key of the seed '
+                      f'stretched with its NFC spelling is {want}', dict(witness, form=f, lbry=got, reference=want))
+        return
+    # observed, not judged: capitals / white space inside a passphrase
+    how, spelled = r.choice([('capitals', forms['NFC'].upper()), ('double-blank', forms['NFC'].replace(' ', '  ') + ' '),
+                             ('surrounding-blanks', ' ' + forms['NFC'] + '\n')])
+    try:
+        rec.log('K6.passphrase_%s_%s' % (how, 'same_seed' if bytes(M.mnemonic_to_seed(mn, spelled)) == base else 'other_seed'))
+    except Exception as e:  # noqa
+        rec.log('K6.passphrase_%s_%s' % (how, type(e).__name__))
+
+
 # ------------------------------------------------------------------------------ K7
 def check_mnemonic_int(rec, m, i, boundary=False):
     rec.case(b'm%d' % i)
@@ -1042,6 +1366,8 @@ def execute(rec, case):
         rec.log('K5.empty_payload_' + addr_verdict(L, '3QJmnh').replace(':', '_'))
     elif fam == 'acct':
         check_account(rec, case)
+    elif fam == 'shared':
+        check_shared_ledger(rec, case)
     elif fam == 'fixture_account':
         check_account(rec, {'fam': 'acct', 'mseed': 0, 'gaps': [20, 6], 'kind': 'words', 'net': 'main', 'use': 0},
                       mnemonic=FIXTURE_MNEMONIC)
@@ -1088,6 +1414,27 @@ def execute(rec, case):
                 if got2 != want:
                     rec.violation(f'C06/K6/same-mnemonic-other-seed/{how}', f'mnemonic_to_seed({spelled[how]!r}) differs from the seed of the same words '
                                   f'separated by single blanks', {'mnemonic': mn, 'spelled': spelled[how], 'how': how, 'passphrase': pw})
+        # a password protected seed: the account key is the BIP32 master of the seed stretched with that password
+        mn = make_mnemonic(lb, 'words', r.getrandbits(40))
+        pw = r.choice(['torba', 'pass phrase', 'x' * r.randrange(1, 200), 'correct horse battery staple', 'hunter2'])
+        net = r.choice(['main', 'main', 'test', 'regtest'])
+        _, vprv, vpub, _, _ = NETS[net]
+        rec.case('pwacct' + mn + '|' + pw + net)
+        try:
+            want = R.master(hashlib.pbkdf2_hmac('sha512', mn.encode(), pw.encode(), 2048, 64)).xprv(vprv, vpub)
+            got = lb.w.Account.get_private_key_from_seed(lb.ledger_class(net), mn, pw).extended_key_string()
+        except R.InvalidChild:
+            rec.log('K6.invalid_master_skipped')
+        except Exception as e:  # noqa
+            rec.violation(f'C06/K6/raises/{type(e).__name__}@get_private_key_from_seed',
+                          f'{type(e).__name__}: {e} for {mn!r}/{pw!r}', {'mnemonic': mn, 'passphrase': pw})
+        else:
+            rec.hit('K6.password_account_root_checked')
+            if got != want:
+                rec.violation('C06/K6/password-protected-seed/account-root',
+                              f'Account.get_private_key_from_seed({mn!r}, {pw!r}) on {net} = {got}, reference master of the stretched '
+                              f'seed {want}', {'mnemonic': mn, 'passphrase': pw, 'net': net, 'lbry': got, 'reference': want})
+        check_passphrase_forms(rec, lb, r, make_mnemonic(lb, r.choice(['words', 'words', 'string']), r.getrandbits(40)))
     elif fam in ('mnem_win', 'mnem_range', 'mnem_rand', 'mnem_fixed'):
         m = lb.mnemonic.Mnemonic('en')
         if len(m.words) != 2048 or len(set(m.words)) != 2048:
